@@ -7,6 +7,7 @@ package values
 
 import (
 	"fmt"
+	"math"
 
 	adminapi "github.com/onosproject/onos-api/go/onos/config/admin"
 	configapi "github.com/onosproject/onos-api/go/onos/config/v2"
@@ -41,6 +42,9 @@ func GnmiTypedValueToNativeType(gnmiTv *gnmi.TypedValue, modelPath *adminapi.Rea
 	case *gnmi.TypedValue_DecimalVal:
 		return configapi.NewTypedValueDecimal(v.DecimalVal.Digits, uint8(v.DecimalVal.Precision)), nil
 	case *gnmi.TypedValue_FloatVal:
+		if math.IsNaN(float64(v.FloatVal)) {
+			return nil, fmt.Errorf("float value NaN is not supported")
+		}
 		return configapi.NewTypedValueFloat(float64(v.FloatVal)), nil
 	case *gnmi.TypedValue_LeaflistVal:
 		var typeOpt0 uint64
